@@ -1042,6 +1042,9 @@ class Processor(object):
         else:
             U_list = []
         tlist = self.get_full_tlist()
+        if tlist is None:
+            # No pulse is loaded, the evolution is the identity.
+            tlist = []
         coeffs = self.get_full_coeffs()
 
         # Compute drift Hamiltonians
